@@ -225,4 +225,7 @@ def export_parser(parser: object, roots: list[str] | None = None, syms: Symbols 
         roots = [n for n, r in rules.items() if not isinstance(r, _rule.BuiltInRule)]
     ex = Exporter(rules, syms)
     text = ex.export(roots)
+    # built-in rules other than EOI are inlined by the code generator (BuiltInRule.generate): Gen.v is told which
+    ex.syms.inlined = sorted(ex.syms.rule(n) for n in ex.defs
+                             if isinstance(rules.get(n), _rule.BuiltInRule) and n != "EOI")
     return text, ex.syms
